@@ -17,6 +17,16 @@ CHECKS = {
     },
 }
 
+CHECKS["C07"] = {
+    "level": "model_checking",
+    "rule": "Engine A: every event sequence (depth 5 quick / 6 thorough, after Allocate) over {CreatePermission [A],[B],[A,B],[A,V6-wrong-family], "
+            "ChannelBind (n1,A),(n2,B),(n1,B),(n2,A), clock advance to next deadline -/+1ns, -/+1s, by min-timeout/2} x 3 (permission,channel) timeout "
+            "configurations on the real turn.Server in virtual time; after every event the response and a probe sweep in both directions "
+            "(3 peers incl. same-IP-other-port, 2 channel numbers) are compared with the reference model whose entries live exactly one timeout "
+            "past the last successful install/refresh; then a drain through every remaining deadline at -1ns/+1ns.",
+    "parts": [A("vtx", "./checks/c07", "TestC07", budget={"quick": 90, "thorough": 1500})],
+}
+
 ENGINES = [
     {"name": "vtx", "path": "/verif/vtx", "serves_properties": ["C06"],
      "kind_free_text": "Engine A: explicit-state search over event histories of the real turn.Server/turn.Client in virtual time (testing/synctest) over an in-memory network, reference model + probe sweep after every event"},
